@@ -112,8 +112,6 @@ def maxTimes (l : List Time) : Time := l.foldl maxTime 0
 structure TaskOK (t : Task) : Prop where
   /-- `updated_at` is the latest of creation, the last change of each kind, and the results -/
   updated : t.updatedAt = maxTimes ([t.createdAt, t.lastTitle, t.lastBody, t.lastEpic, t.lastState] ++ t.results.map (·.time))
-  /-- todo/done/canceled items are unclaimed (replay clears the claimant on those states) -/
-  cleared : t.st.clearsClaim = true → t.claimedBy = ""
   /-- a claimant always has a claim time -/
   claimTime : t.claimedBy ≠ "" → t.lastClaim ≠ 0
   /-- epics are never re-parented -/
